@@ -387,8 +387,21 @@ package desync
 //@   ghost@loop3.exit $eof = true
 //@   ensures r1 == nil ==> $eof
 
+//@ ghost var $invalidated bool
 //@ func (p Plan) Validate
-//@   prop C07
+//@   prop C07 C01
+//# C01 (the re-plan loop makes progress): whenever validation fails because of a seed - its data file can not
+//# be opened, or a worker found a mismatch - that seed has been marked invalid before the error is returned,
+//# so the next plan does not choose it again
+//@   ghost@entry $invalidated = false
+//@   ghost@after:SetInvalid $invalidated = true
+//@   ghost@entry $last = nil
+//@   ghost@after:Open $last = $r1
+//@   ensures @C01 $last != nil ==> err != nil && $invalidated
+//@   loop 2: invariant @C01 $last == nil
+//@   lit 1: ghost@loop1.head $invalidated = false
+//@   lit 1: ghost@after:SetInvalid $invalidated = true
+//@   lit 1: ensures @C01 r0 != nil ==> $invalidated
 //# a validation worker returns nil only by running off the end of the closed job channel
 //@   lit 1: ghost@entry $done = false
 //@   lit 1: ghost@loop1.exit $done = true
